@@ -163,26 +163,26 @@ def _depends_on_loop_store(q, fa, val: ast.AST) -> bool:
 def _check_skip_condition(run, q, fa, lp: ast.For, selfp) -> None:
     """paths through the loop body that do not store q_metadata[k] = v must know found == v."""
     stores = [n for n in ast.walk(lp) if isinstance(n, ast.Assign) and any(isinstance(tg, ast.Subscript) for tg in n.targets)]
-    if len(stores) != 1:
-        run.fail("C16.R5", q, lp, f"{len(stores)} stores into the new-keys dictionary inside the loop (expected one)")
+    if len(stores) < 1:
+        run.fail("C16.R5", q, lp, "no store into the new-keys dictionary inside the loop")
         return
-    st = stores[0]
-    tg = st.targets[0]
     k_ok = isinstance(lp.target, ast.Tuple) and len(lp.target.elts) == 2 and all(isinstance(e, ast.Name) for e in lp.target.elts)
     if not k_ok:
         run.fail("C16.R5", q, lp, "loop target is not (key, value)")
         return
     kv, vv = lp.target.elts[0].id, lp.target.elts[1].id  # type: ignore
-    ok_store = isinstance(tg.slice, ast.Name) and tg.slice.id == kv and isinstance(st.value, ast.Name) and st.value.id == vv  # type: ignore
-    run.check(ok_store, "C16.R5", q, st, "loop stores new[key] = value", "the per-key store does not record the given value under the given key")
+    for st in stores:
+        tg = st.targets[0]
+        ok_store = isinstance(tg.slice, ast.Name) and tg.slice.id == kv and isinstance(st.value, ast.Name) and st.value.id == vv  # type: ignore
+        run.check(ok_store, "C16.R5", q, st, "loop stores new[key] = value", "the per-key store does not record the given value under the given key")
     cfg = fa.cfg
     head = cfg.node_of(lp)
-    sn = cfg.node_of(st)
+    store_nodes = {cfg.node_of(st) for st in stores}
     bad_paths = 0
     all_paths = cfg.body_paths(head, lambda c: _in_loop(c, lp))
     n_paths = len(all_paths)
     for pth, facts in all_paths:
-        if sn not in pth and not _knows_equal(fa, facts, kv, vv, selfp):
+        if not (store_nodes & set(pth)) and not _knows_equal(fa, facts, kv, vv, selfp):
             bad_paths += 1
     run.notes["qmetadata_loop_paths"] = n_paths
     run.check(bad_paths == 0 and n_paths > 0, "C16.R5", q, lp, "a key is skipped only when the inherited value is known equal to the new one", f"{bad_paths} path(s) through the per-key loop skip the key without knowing that the value already visible on this path equals the new value: a new or changed key can be dropped")
